@@ -31,7 +31,8 @@ var c15BodyFuncs = map[string]map[string]bool{
 		"CorDef.DoNotation": true, "CorDef.YieldFromIO": true, "CorNewGenerics": true,
 		// the flag type behind every isClosed / isStarted
 		"AtomBool.Set": true, "AtomBool.Get": true},
-	"worker/pool.go": {"DefaultWorkerPool.Close": true, "DefaultWorkerPool.Schedule": true, "DefaultWorkerPool.IsClosed": true},
+	"worker/pool.go": {"DefaultWorkerPool.Close": true, "DefaultWorkerPool.Schedule": true, "DefaultWorkerPool.IsClosed": true,
+		"DefaultInvokable.Invoke": true, "DefaultInvokable.InvokeWithTimeout": true},
 }
 
 func c15StripVerif(b *ast.BlockStmt) {
